@@ -110,12 +110,18 @@ def make_case(rng, tier):
             S[:k, :k] = np.diag(s)
             x[0, p] = U @ S @ V.T
         c['x'] = x
+    if kind in ('eigh', 'eigh_rep', 'svd') and rng.random() < 0.5:
+        # data not of order one: A(t) * 2^k with the documented threshold keyword scaled accordingly.  Scaling by a power
+        # of two is exact in floating point, so the factors must be those of the unscaled matrix (eigen/singular values * 2^k)
+        c['scale_log2'] = rng.choice([33, -33, 20, -20])
     return c
 
 
 def check(c):
     kind, D, P = c['op'], c['D'], c['P']
     x = np.array(c['x'])
+    scale = 2.0 ** c.get('scale_log2', 0)
+    x = x * scale
     A = UTPM(x.copy())
     tol = 1e-8
     try:
@@ -129,16 +135,22 @@ def check(c):
             elif kind == 'lu':
                 W, L, U = algopy.lu(A)
             elif kind in ('eigh', 'eigh_rep'):
-                l, Q = algopy.eigh(A)
+                l, Q = algopy.eigh(A) if 'scale_log2' not in c else UTPM.eigh(A, epsilon=1e-8 * scale)
             elif kind == 'eig':
                 l, Q = algopy.eig(A)
             else:
-                U, s, V = algopy.svd(A)
+                U, s, V = algopy.svd(A) if 'scale_log2' not in c else UTPM.svd(A, epsilon=1e-8 * scale)
     except Exception as ex:
         msg = str(ex).strip().splitlines()
         return '%s-exception: raised %s' % (kind, (msg[-1] if msg else type(ex).__name__)[:120])
     if not np.array_equal(A.data, x):
         return '%s-mutated: the argument was modified' % kind
+    if 'scale_log2' in c:
+        x = x / scale
+        if kind == 'svd':
+            s = UTPM(s.data / scale)
+        else:
+            l = UTPM(l.data / scale)
     for p in range(P):
         a = x[:, p]
         m, n = a.shape[1:]
